@@ -32,7 +32,8 @@ pub struct Ty {
 
 impl PartialEq for Ty {
     fn eq(&self, o: &Ty) -> bool {
-        std::ptr::eq(self, o) || (self.hash == o.hash && self.width == o.width && self.kind == o.kind)
+        // structural 64-bit hash + size fingerprints; no recursion (types can be exponentially large as trees)
+        std::ptr::eq(self, o) || (self.hash == o.hash && self.width == o.width && self.tree_size == o.tree_size && self.depth == o.depth)
     }
 }
 impl Eq for Ty {}
